@@ -70,10 +70,37 @@ impl PartialEq for ZDrop {
         true
     }
 }
+thread_local! {
+    /// fault kind F11 for zero-sized elements: the operator call that unwinds (0 = none), calls so far, fired
+    static ZTICK: Cell<(u32, u32, bool)> = Cell::new((0, 0, false));
+}
+pub fn ztick_arm(k: u32) {
+    ZTICK.with(|c| c.set((k, 0, false)));
+}
+pub fn ztick_take() -> (u32, bool) {
+    ZTICK.with(|c| {
+        let (_, n, f) = c.get();
+        c.set((0, 0, false));
+        (n, f)
+    })
+}
+fn ztick() {
+    let inject = ZTICK.with(|c| {
+        let (k, n, f) = c.get();
+        let hit = k != 0 && n + 1 == k && !std::thread::panicking();
+        c.set((k, n + 1, f || hit));
+        hit
+    });
+    if inject {
+        tok::note(EV_INJECT, 9100);
+        std::panic::panic_any(Injected);
+    }
+}
 // arithmetic (operation `VArith`): every operator destroys all operands but one
 impl std::ops::Add<ZDrop> for ZDrop {
     type Output = ZDrop;
     fn add(self, rhs: ZDrop) -> ZDrop {
+        ztick();
         drop(rhs);
         self
     }
@@ -81,30 +108,35 @@ impl std::ops::Add<ZDrop> for ZDrop {
 impl<'a> std::ops::Add<&'a ZDrop> for ZDrop {
     type Output = ZDrop;
     fn add(self, _rhs: &'a ZDrop) -> ZDrop {
+        ztick();
         self
     }
 }
 impl std::ops::Mul<ZDrop> for ZDrop {
     type Output = ZDrop;
     fn mul(self, rhs: ZDrop) -> ZDrop {
+        ztick();
         drop(self);
         rhs
     }
 }
 impl std::ops::AddAssign<ZDrop> for ZDrop {
     fn add_assign(&mut self, rhs: ZDrop) {
+        ztick();
         drop(rhs);
     }
 }
 impl std::ops::Neg for ZDrop {
     type Output = ZDrop;
     fn neg(self) -> ZDrop {
+        ztick();
         self
     }
 }
 impl vek::num_traits::MulAdd<ZDrop, ZDrop> for ZDrop {
     type Output = ZDrop;
     fn mul_add(self, a: ZDrop, b: ZDrop) -> ZDrop {
+        ztick();
         drop(a);
         drop(self);
         b
@@ -523,33 +555,117 @@ impl ZExec<$K> {
                     let mode = op.a % 4;
                     let mk = || <$K as Kind<ZDrop>>::v_from_arr(<$K as Kind<ZDrop>>::arr_from_vec((0..n).map(|_| ZDrop::new()).collect()));
                     let mut calls = 0usize;
-                    let r = guard_nopanic("map", 0, 0, || match mode {
-                        0 => <$K as Kind<ZDrop>>::v_map(v, |x| {
-                            calls += 1;
-                            x
-                        }),
-                        1 => <$K as Kind<ZDrop>>::v_zip_map(v, mk(), |x, y| {
-                            calls += 1;
-                            drop(y);
-                            x
-                        }),
-                        2 => <$K as Kind<ZDrop>>::v_map2(v, mk(), |x, y| {
-                            calls += 1;
-                            drop(y);
-                            x
-                        }),
-                        _ => <$K as Kind<ZDrop>>::v_map3(v, mk(), mk(), |x, y, z| {
-                            calls += 1;
-                            drop(y);
-                            drop(z);
-                            x
-                        }),
-                    });
-                    if let Some(v2) = r {
-                        if calls != n {
-                            tok::raise(V5_ORDER, format!("zero-sized elements: map called its closure {} times on {} elements", calls, n));
+                    let pa = op.f as usize;
+                    let mut fired = false;
+                    let r = {
+                        let calls = &mut calls;
+                        let fired = &mut fired;
+                        crate::exec::guard(0, 0, None, move || {
+                            // fault kind F7: the closure unwinds at its pa-th call
+                            let mut tick = move || {
+                                *calls += 1;
+                                if pa != 0 && *calls == pa {
+                                    *fired = true;
+                                    tok::note(EV_INJECT, 7000 + *calls as u64);
+                                    std::panic::panic_any(Injected);
+                                }
+                            };
+                            match mode {
+                                0 => <$K as Kind<ZDrop>>::v_map(v, |x| {
+                                    tick();
+                                    x
+                                }),
+                                1 => <$K as Kind<ZDrop>>::v_zip_map(v, mk(), |x, y| {
+                                    tick();
+                                    drop(y);
+                                    x
+                                }),
+                                2 => <$K as Kind<ZDrop>>::v_map2(v, mk(), |x, y| {
+                                    tick();
+                                    drop(y);
+                                    x
+                                }),
+                                _ => <$K as Kind<ZDrop>>::v_map3(v, mk(), mk(), |x, y, z| {
+                                    tick();
+                                    drop(y);
+                                    drop(z);
+                                    x
+                                }),
+                            }
+                        })
+                        .0
+                    };
+                    match r {
+                        Ok(v2) => {
+                            if calls != n {
+                                tok::raise(V5_ORDER, format!("zero-sized elements: map called its closure {} times on {} elements", calls, n));
+                            }
+                            self.form = ZForm::V(v2);
                         }
-                        self.form = ZForm::V(v2);
+                        Err(crate::exec::Thrown::Injected) if fired => {}
+                        Err(crate::exec::Thrown::Injected) => tok::raise(V10_UNEXPECTED_PANIC, "zero-sized elements: map: an injected panic surfaced where none was planned (harness)".to_string()),
+                        Err(crate::exec::Thrown::Genuine(msg)) => tok::raise(V10_UNEXPECTED_PANIC, format!("zero-sized elements: map panicked: {}", msg)),
+                    }
+                    true
+                }
+                o => {
+                    self.form = o;
+                    false
+                }
+            },
+            VArith => match std::mem::replace(&mut self.form, ZForm::Gone) {
+                ZForm::V(v) => {
+                    // counting version of the arithmetic operations: whatever happens, created - destroyed
+                    // must equal what is still owned (n when a vector comes back, 0 after a panic or a reduction)
+                    let mode = op.a % 11;
+                    let mk = || <$K as Kind<ZDrop>>::v_from_arr(<$K as Kind<ZDrop>>::arr_from_vec((0..n).map(|_| ZDrop::new()).collect()));
+                    let pa = if op.f < 1000 { op.f } else { 0 };
+                    ztick_arm(pa);
+                    let mut kept: Option<<$K as Kind<ZDrop>>::V> = None;
+                    let r = {
+                        let kept = &mut kept;
+                        crate::exec::guard(0, 0, None, move || -> Option<<$K as Kind<ZDrop>>::V> {
+                            match mode {
+                                0 => Some(<$K as Kind<ZDrop>>::v_add(v, mk())),
+                                1 => Some(<$K as Kind<ZDrop>>::v_add_arr(v, <$K as Kind<ZDrop>>::v_into_arr(mk()))),
+                                2 => Some(<$K as Kind<ZDrop>>::v_mul_tup(v, <$K as Kind<ZDrop>>::v_into_tup(mk()))),
+                                3 => {
+                                    let w = mk();
+                                    Some(<$K as Kind<ZDrop>>::v_add_ref(v, &w))
+                                }
+                                4 => {
+                                    *kept = Some(v);
+                                    <$K as Kind<ZDrop>>::v_add_assign(kept.as_mut().unwrap(), mk());
+                                    kept.take()
+                                }
+                                5 => Some(<$K as Kind<ZDrop>>::v_neg(v)),
+                                6 => Some(<$K as Kind<ZDrop>>::v_mul_add(v, mk(), mk())),
+                                7 => Some(<$K as Kind<ZDrop>>::v_sum_of(vec![v, mk()].into_iter())),
+                                8 => Some(<$K as Kind<ZDrop>>::v_product_of(vec![v, mk(), mk()].into_iter())),
+                                9 => {
+                                    drop(<$K as Kind<ZDrop>>::v_elem_sum(v));
+                                    None
+                                }
+                                _ => {
+                                    drop(<$K as Kind<ZDrop>>::v_elem_product(v));
+                                    None
+                                }
+                            }
+                        })
+                        .0
+                    };
+                    let (_, fired) = ztick_take();
+                    match r {
+                        Ok(Some(v2)) => self.form = ZForm::V(v2),
+                        Ok(None) => {}
+                        Err(crate::exec::Thrown::Injected) if fired => {
+                            // v += w cut short: the vector is still the caller's
+                            if let Some(v) = kept.take() {
+                                self.form = ZForm::V(v);
+                            }
+                        }
+                        Err(crate::exec::Thrown::Injected) => tok::raise(V10_UNEXPECTED_PANIC, "zero-sized elements: arithmetic: an injected panic surfaced where none was planned (harness)".to_string()),
+                        Err(crate::exec::Thrown::Genuine(msg)) => tok::raise(V10_UNEXPECTED_PANIC, format!("zero-sized elements: arithmetic panicked: {}", msg)),
                     }
                     true
                 }
